@@ -60,6 +60,12 @@ def sid_to_dict(sid: str, _type: Optional[str] = None) -> Tuple[str, dict] | Tup
 
     # the sid must be the canonical rendering of the resolved fields (eg. no trailing newline)
     if r.get_format_for(template).format(**data) != sid:
+        if _type:
+            return None, None
+        # the first matching template is not the right one: a later one may still accept the whole sid
+        for template, data in r.resolve_all(sid).items():
+            if r.get_format_for(template).format(**data) == sid:
+                return template, data
         return None, None
 
     return template, data
